@@ -146,8 +146,18 @@ func StringToNumber(s string) (n int64, f float64, tp NumberType) {
 	}
 	var i0 = 0
 	// If the string starts with -?0[xX] then it may be an hex number
+	if strings.IndexByte(s, '_') >= 0 {
+		// Go numeric syntax allows underscores in some cases, Lua doesn't.
+		tp = NaN
+		return
+	}
 	if s[0] == '+' {
 		s = s[1:]
+		if len(s) == 0 || s[0] == '+' || s[0] == '-' {
+			// Only one sign is allowed
+			tp = NaN
+			return
+		}
 	} else if s[0] == '-' || s[0] == '+' {
 		i0++
 	}
